@@ -12,7 +12,7 @@ def run(chk):
     ok = core.standard_proof_phase(chk, "C05", gen_needed=())
     chk.notes["system_theorems"] = ['c05_complete_once_partial', 'c05_monitor', 'c05_summary_before_completion']
     chk.notes["partial"] = 'liveness half (recovery round submits or completes; finitely many rounds; no starvation below max-nodes) is NOT proved in Coq: decided on impl by oracles over all explored fault-free schedules (incl. the refused-last-node race) and by c07_round_maximal at component level'
-    syscheck.system_phase(chk, "C05", MODES, n_quick=160, n_thorough=3000, also=())
+    syscheck.system_phase(chk, "C05", MODES, n_quick=160, n_thorough=3000, also=(), directed=("try_races_with_last_node",))
 
 
 def replay(path):
